@@ -8,9 +8,12 @@ if [ -n "$(git status --porcelain --untracked-files=no)" ]; then echo "/repo is 
 if ! git apply --3way "$PATCH" 2>/dev/null; then git reset -q --hard HEAD; echo "PATCH DOES NOT APPLY"; exit 8; fi
 git reset -q
 cd ${VERIF_DIR:-/verif}
+# evidence files must only ever come from runs against the unchanged /repo: keep the current ones aside
+rm -rf /tmp/try_evidence_keep && cp -r evidence /tmp/try_evidence_keep
 for p in "$@"; do
   ( time VERIF_REPO=$R ./check $p quick ) > ${OUT}_$p.log 2>&1
   echo "$p exit=$? $(grep -E '^VIOLATION|^HARNESS|^KNOWN' ${OUT}_$p.log | head -2 | tr '\n' ' ')"
 done
+rm -rf evidence && cp -r /tmp/try_evidence_keep evidence
 git -C $R reset -q --hard HEAD
 git -C $R status --porcelain --untracked-files=no | head -3
